@@ -62,9 +62,11 @@ class Recorder:
             n = g.number_of_players
             vals = np.array(g.get_values(), dtype=np.float64) * self.scale
             if self.offset:
+                # in tiny units the offset shrinks with them, otherwise the game itself would vanish below one ulp of the offset
+                off = self.offset * (self.scale if self.scale < 1e-3 else 1.0)
                 ids = np.arange(1 << n)
                 for i in range(n):
-                    vals = vals + np.where(ids >> i & 1, self.offset * (1 + i / 8), 0.0)
+                    vals = vals + np.where(ids >> i & 1, off * (1 + i / 8), 0.0)
             g = IncompleteCooperativeGame(n)
             g.set_values(vals)
         self.games.append([float(x) for x in g.get_values()])
